@@ -294,6 +294,9 @@ def InlineSignExtend(obj:Logic):
     if (obj.r.getWidth() <= obj.a.getWidth()):
         # nothing to extend, the result keeps the low bits of a
         return "assign {} = {};\n".format(getParentWireName(obj, obj.r), getParentWireName(obj, obj.a))
+    if (obj.a.getWidth() == 1):
+        # a 1 bit wire is declared as a scalar, which cannot be indexed
+        return "assign {} = {{ {{ {} {{ {} }} }}, {} }};\n".format(getParentWireName(obj, obj.r), obj.r.getWidth() - 1,  getParentWireName(obj, obj.a), getParentWireName(obj, obj.a))
     return "assign {} = {{ {{ {} {{ {}[{}] }} }}, {} }};\n".format(getParentWireName(obj, obj.r), obj.r.getWidth() - obj.a.getWidth(),  getParentWireName(obj, obj.a), obj.a.getWidth()-1, getParentWireName(obj, obj.a))
 
 def InlineZeroExtend(obj:Logic):
@@ -343,9 +346,15 @@ def InlineEqualConstant(obj:Logic):
     return "assign {} = ({} == {})? 1 : 0;\n".format(getParentWireName(obj, obj.r), getParentWireName(obj, obj.a), obj.v )
 
 def InlineRange(obj:Logic):
+    if (obj.a.getWidth() == 1):
+        # a 1 bit wire is declared as a scalar, which cannot be indexed
+        return "assign {} = {};\n".format(getParentWireName(obj, obj.r), getParentWireName(obj, obj.a))
     return "assign {} = {}[{}:{}];\n".format(getParentWireName(obj, obj.r), getParentWireName(obj, obj.a) , obj.high, obj.low)
 
 def InlineBit(obj:Logic):
+    if (obj.a.getWidth() == 1):
+        # a 1 bit wire is declared as a scalar, which cannot be indexed
+        return "assign {} = {};\n".format(getParentWireName(obj, obj.r), getParentWireName(obj, obj.a))
     return "assign {} = {}[{}];\n".format(getParentWireName(obj, obj.r), getParentWireName(obj, obj.a) , obj.bit)
 
 def InlineBitsLSBF(obj:Logic):
